@@ -332,7 +332,10 @@ def run_impl(case):
         fmt = JsonFormatter(fmt=case["defaults"], datefmt=case["datefmt"])
         if case.get("warm", True) and isinstance(case["defaults"], dict):
             try:
-                fmt.format(_record("warm up", dict({k: "prior" for k in case["defaults"]}, zz_prior=1), 12345.0))
+                # the earlier record: long ago, or (for every other case) within the SAME second as the record under test
+                t = F(case["created"])
+                prior = 12345.0 if t.numerator % 2 == 0 else F(math.floor(t)) + (t - math.floor(t) + F(437, 1000)) % 1
+                fmt.format(_record("warm up", dict({k: "prior" for k in case["defaults"]}, zz_prior=1), prior))
             except Exception:
                 pass
         rec = _record(case["name"], dict(case["data"]), case["created"])
